@@ -30,3 +30,14 @@ def spine_executor(n: Py) -> Py:
             return spine_executor(n.args[0])
         return None
     return None
+
+
+def md_over(a: Py, base: Py) -> B:
+    """a is base under zero or more MetaData(<source>, <dictionary>) wrappers."""
+    if a == base:
+        return True
+    if isinstance(a, ast.Call) and isinstance(a.func, ast.Name) and a.func.id == "MetaData":
+        if len(a.args) >= 1:
+            return md_over(a.args[0], base)
+        return False
+    return False
